@@ -100,3 +100,66 @@ Qed.
 
 Lemma one_step_ok ns tm : donech (one_step ns tm) = true /\ norepeat (one_step ns tm).
 Proof. split; [reflexivity|]. apply norepeat_mkcfgx. reflexivity. Qed.
+
+(* Why the outcome theorems carry the premise donech c = true.  Schedule called WITHOUT a done channel: the command fails
+   on its own after the stop flag is set and before the Signal pass reaches its node; the worker only records the error,
+   falls through to the final relabelling (running -> finished) - the step is reported finished although its only
+   attempt failed; the Signal pass then finds it finished.  Observed on the real scheduler:
+   findings/C04-done-nil-finished-after-failure.json (candidate fix: fixes/F-sched-done-nil-finished.diff). *)
+Definition one_step_nodone : cfg := mkcfgx [sd [] 0] 0 false false 1 false allh.
+Definition done_nil_exec : list label :=
+  launch 0 ++ [SigFlag; WExecEnd 0 false; WAfter 0 false; WFinish 0; SigNode false].
+Lemma done_nil_finished_after_failure :
+  donech one_step_nodone = false /\ norepeat one_step_nodone /\ dry one_step_nodone = false /\
+  exists s, Reach one_step_nodone s /\ canceled s = true /\ lasterr s = true /\ sigq s = [] /\
+    st (nd s 0) = NSuccess /\ outs (nd s 0) = [false].
+Proof.
+  split; [reflexivity|]. split; [apply norepeat_mkcfgx; reflexivity|]. split; [reflexivity|].
+  eexists. split; [exists done_nil_exec; vm_compute; reflexivity|].
+  repeat (split; [vm_compute; reflexivity|]). vm_compute; reflexivity.
+Qed.
+
+(* Why C01 / C15 carry the premise norepeat.  A step with repeatPolicy AND continueOn.failure whose command fails is
+   labelled failed and keeps repeating (scheduler.go: the repeat test is `execErr == nil || ContinueOn.Failure`): from
+   then on it is no longer counted as running, and its dependents are released (failed with continueOn.failure permits
+   them) although its command will start again.  With maxActiveRuns = 1: two commands execute at once, and the
+   dependency's command starts again after the dependent's. *)
+Definition rep_cof : stepdef :=
+  {| deps := []; cof := true; cos := false; rlimit := 0; pre := true; sfail := false; repeat := true |}.
+Definition repeat_cof_cfg : cfg := mkcfgx [rep_cof; sd [0] 0] 1 false true 0 false allh.
+Definition repeat_cof_pre : list label :=
+  launch 0 ++ [WExecEnd 0 false; WAfter 0 false; LCommit 1; LLaunch 1; WTest 1].
+Definition repeat_cof_post : list label := [WRepeatWake 0; WTest 0; WExecStart 0].
+Lemma repeat_cof_breaks_order_and_cap :
+  maxActive repeat_cof_cfg = 1 /\ donech repeat_cof_cfg = true /\
+  exists s1 s2 s3, run repeat_cof_cfg (init repeat_cof_cfg) repeat_cof_pre = Some s1 /\
+    step repeat_cof_cfg s1 (WExecStart 1) = Some s2 /\ run repeat_cof_cfg s2 repeat_cof_post = Some s3 /\
+    In 0 (deps (steps repeat_cof_cfg 1)) /\ In (WExecStart 0) repeat_cof_post /\
+    st (nd s1 0) = NError /\ ph (nd s1 0) = PRepeatWait /\
+    ph (nd s3 0) = PExec /\ ph (nd s3 1) = PExec /\ exec_count repeat_cof_cfg s3 = 2 /\ running_count repeat_cof_cfg s3 = 1.
+Proof.
+  split; [reflexivity|]. split; [reflexivity|].
+  do 3 eexists. split; [vm_compute; reflexivity|]. split; [vm_compute; reflexivity|]. split; [vm_compute; reflexivity|].
+  split; [vm_compute; auto|]. split; [vm_compute; auto|].
+  repeat (split; [vm_compute; reflexivity|]). vm_compute; reflexivity.
+Qed.
+
+(* A stop during a retry interval.  The step failed once and waits to retry (it is in state running); the Signal pass
+   labels it canceled; when the interval is over the worker resets the node unconditionally (setStatus(None),
+   scheduler.go: the retry arm) and hands it back to the loop, which does not launch anything any more.  The run ends
+   canceled, onCancel and onExit run, the command is not started again - and the node ends labelled "not started" with
+   retry count 1 although it was attempted once (whether that label is acceptable is a question of C08, not of C05).
+   Observed as such on the real scheduler (stream `stop` of the driver, accepted by the acceptor). *)
+Definition retry_one : cfg := mkcfgx [sd [] 2] 0 false true 1 false allh.
+Definition stop_in_retry_wait : list label :=
+  launch 0 ++ [WExecEnd 0 false; WAfter 0 false; SigFlag; SigNode true; WRetryWake 0; LExit; HBegin; HStart HCancel;
+               HEnd HCancel true; HStart HExit; HEnd HExit true; HFinish].
+Lemma stop_in_retry_wait_ok :
+  exists s, run retry_one (init retry_one) stop_in_retry_wait = Some s /\ pc s = LDone /\ canceled s = true /\
+    st (nd s 0) = NNone /\ rc (nd s 0) = 1 /\ att (nd s 0) = 1 /\ ph (nd s 0) = PIdle /\
+    overall retry_one s = OCancel /\ hstarts stop_in_retry_wait = [HCancel; HExit] /\
+    length (filter (fun l => match l with WExecStart _ => true | _ => false end) stop_in_retry_wait) = 1.
+Proof.
+  eexists. split; [vm_compute; reflexivity|].
+  repeat (split; [vm_compute; reflexivity|]). vm_compute; reflexivity.
+Qed.
